@@ -58,8 +58,13 @@ func genDoc(name string, depth int) *doc {
 	case 1:
 		d.b = verif.Bool(name + ".b")
 	case 2:
-		d.i = verif.Int64(name + ".i")
-		verif.Assume(verif.And(d.i > -9007199254740992, d.i < 9007199254740992))
+		if verif.Tier() > 0 {
+			d.i = verif.Int64(name + ".i")
+			verif.Assume(verif.And(d.i > -9007199254740992, d.i < 9007199254740992))
+		} else {
+			// quick: boundary table (the symbolic integer costs one floating-point query per comparison)
+			d.i = []int64{0, 1, -7, 255, 65536, 1000000, 9007199254740991, -9007199254740991}[verif.Choice(name+".i", 8)]
+		}
 	case 3:
 		f := c18Floats[verif.Choice(name+".f", nFlt)]
 		d.f, d.ftxt = f.v, f.txt
@@ -508,8 +513,18 @@ func H_C18_file() {
 	e1, e2 := c.Unpack(&m1, opts...), mem.Unpack(&m2, opts...)
 	verif.Assert(e1 == nil && e2 == nil && eqNumTree(m1, m2), "C18/file: WithFile loader yields the same data as the in-memory loader")
 	var uerr error
-	fault := verif.Choice("fault", 4)
+	fault := verif.Choice("fault", 6)
 	switch fault {
+	case 4: // a required top-level setting the document does not have
+		var t struct {
+			Name   string `config:"name" validate:"required"`
+			Server struct {
+				Port int `config:"port"`
+			} `config:"server"`
+		}
+		uerr = c.Unpack(&t, opts...)
+	case 5: // a getter for a top-level setting the document does not have
+		_, uerr = c.String("name", -1, opts...)
 	case 0: // an object where a number is required
 		var t struct {
 			Server struct {
